@@ -159,6 +159,27 @@ theorem C19_monotone (ops : List Op) : ∀ (s : State), Inv s → Admissible s o
     obtain ⟨e', u', h', hu', hle'⟩ := ih (step s op).1 hinv' hrest j e1 u1 h1 hu1
     exact ⟨e', u', h', hu', Int.le_trans hle1 hle'⟩
 
+/-- the same from a freshly created file: every history without force calls and with a forward
+clock keeps every entity's reported update time non-decreasing from the moment it is first seen -/
+theorem C19_monotone_from_open (clock : Int) (auto : Bool) (s0 : State) (hc : InRange clock)
+    (hopen : State.open clock auto = .ok s0) (pre ops : List Op) (hadm : Admissible s0 (pre ++ ops))
+    (j : Nat) (e : Ent) (u : Int) (h : (run s0 pre).ents[j]? = some e)
+    (hu : readStamp e.updated = .ok (some u)) :
+    ∃ e' u', (run s0 (pre ++ ops)).ents[j]? = some e' ∧ readStamp e'.updated = .ok (some u') ∧
+      u ≤ u' := by
+  have key : ∀ (pre : List Op) (s : State), Inv s → Admissible s (pre ++ ops) →
+      Inv (run s pre) ∧ Admissible (run s pre) ops ∧ run s (pre ++ ops) = run (run s pre) ops := by
+    intro pre
+    induction pre with
+    | nil => intro s hi ha; exact ⟨hi, ha, rfl⟩
+    | cons op pre ih =>
+      intro s hi ha
+      obtain ⟨hf, hclk, hrest⟩ := ha
+      exact ih (step s op).1 (inv_step s op hi hclk hf) hrest
+  obtain ⟨hi, ha, hrun⟩ := key pre s0 (inv_open clock auto s0 hc hopen) hadm
+  rw [hrun]
+  exact C19_monotone ops (run s0 pre) hi ha j e u h hu
+
 example : ∃ s, State.open 1000 true = .ok s ∧
     Admissible s [.create .block 0 .good, .setClock 2000, .call 1 none .m_type .good] :=
   ⟨_, rfl, rfl, trivial, rfl, ⟨by decide +kernel, by decide +kernel⟩, rfl, trivial, trivial⟩
@@ -290,6 +311,18 @@ theorem C19_only_target (s : State) (op : Op) (j : Nat) (e : Ent) (h : s.ents[j]
   | touched w _ _ ht _ => exact absurd ht hne
   | forcedU t w hop _ => subst hop; simp [Op.target] at hne
   | forcedC t w hop _ => subst hop; simp [Op.target] at hne
+
+/-- a call or creation whose argument is refused by the validation that precedes the write leaves
+the whole state as it was (whatever the switch says) -/
+theorem C19_refused_unchanged (s : State) (e : Nat) (via : Option Cls) (m : Mem) (k : Kind) :
+    (step s (.call e via m .refusedEarly)).1 = s ∧ (step s (.create k e .refusedEarly)).1 = s := by
+  constructor
+  · simp only [step]
+    repeat' split
+    all_goals rfl
+  · simp only [step]
+    repeat' split
+    all_goals rfl
 
 /-! ## forcing a time stamp and reading it back, also after re-opening -/
 
